@@ -15,14 +15,22 @@ BLOCH_TY = {"int": "int", "long": "long", "float": "float", "bit": "bit", "bool"
 
 
 def is_arr(t):
-    return isinstance(t, tuple)
+    return isinstance(t, tuple) and t[0] == "arr"
+
+
+def is_cls(t):
+    return isinstance(t, tuple) and t[0] == "cls"
 
 
 def ty_src(t):
+    if is_cls(t):
+        return t[1]
     return BLOCH_TY[t[1]] + "[]" if is_arr(t) else BLOCH_TY[t]
 
 
 def ty_sx(t):
+    if is_cls(t):
+        return "(cls %s)" % t[1]
     return "(arr %s)" % t[1] if is_arr(t) else t
 
 
@@ -81,6 +89,26 @@ def e_src(e):
         return "%s%s" % (e[1], e[2])
     if k == "asg":
         return "%s = %s" % (e[1], e_src(e[2]))
+    if k == "new":
+        return "new %s(%s)" % (e[1], ", ".join(e_src(x) for x in e[2]))
+    if k == "fld":
+        return "%s.%s" % (e_src(e[1]), e[2])
+    if k == "this":
+        return "this"
+    if k == "null":
+        return "null"
+    if k == "mcall":
+        return "%s.%s(%s)" % (e_src(e[1]), e[2], ", ".join(e_src(x) for x in e[3]))
+    if k == "super":
+        return "super.%s(%s)" % (e[1], ", ".join(e_src(x) for x in e[2]))
+    if k == "scall":
+        return "%s.%s(%s)" % (e[1], e[2], ", ".join(e_src(x) for x in e[3]))
+    if k == "sfld":
+        return "%s.%s" % (e[1], e[2])
+    if k == "fset":
+        return "%s.%s = %s" % (e_src(e[1]), e[2], e_src(e[3]))
+    if k == "sfset":
+        return "%s.%s = %s" % (e[1], e[2], e_src(e[3]))
     raise ValueError(k)
 
 
@@ -112,6 +140,26 @@ def e_sx(e):
         return "(post %s %s)" % (e[1], e[2])
     if k == "asg":
         return "(asg %s %s)" % (e[1], e_sx(e[2]))
+    if k == "new":
+        return "(new %s%s)" % (e[1], "".join(" " + e_sx(x) for x in e[2]))
+    if k == "fld":
+        return "(fld %s %s)" % (e_sx(e[1]), e[2])
+    if k == "this":
+        return "(this)"
+    if k == "null":
+        return "(null)"
+    if k == "mcall":
+        return "(mcall %s %s%s)" % (e_sx(e[1]), e[2], "".join(" " + e_sx(x) for x in e[3]))
+    if k == "super":
+        return "(super %s%s)" % (e[1], "".join(" " + e_sx(x) for x in e[2]))
+    if k == "scall":
+        return "(scall %s %s%s)" % (e[1], e[2], "".join(" " + e_sx(x) for x in e[3]))
+    if k == "sfld":
+        return "(sfld %s %s)" % (e[1], e[2])
+    if k == "fset":
+        return "(fset %s %s %s)" % (e_sx(e[1]), e[2], e_sx(e[3]))
+    if k == "sfset":
+        return "(sfset %s %s %s)" % (e[1], e[2], e_sx(e[3]))
     raise ValueError(k)
 
 
@@ -150,6 +198,8 @@ def s_src(s, ind):
         return "%s%s;\n" % (p, e_src(s[1]))
     if k == "block":
         return p + blk_src(s, ind)
+    if k == "destroy":
+        return "%sdestroy %s;\n" % (p, e_src(s[1]))
     raise ValueError(k)
 
 
@@ -188,6 +238,8 @@ def s_sx(s):
         return "(expr %s)" % e_sx(s[1])
     if k == "block":
         return "(block%s)" % "".join(" " + s_sx(x) for x in s[1])
+    if k == "destroy":
+        return "(destroy %s)" % e_sx(s[1])
     raise ValueError(k)
 
 
@@ -204,12 +256,57 @@ def fn_sx(f):
                                      " ".join(s_sx(s) for s in body))
 
 
-def prog_src(fns):
-    return "\n".join(fn_src(f) for f in fns)
+# a class: dict(name, base, fields=[(static, final, ty, name, init)], ctors=[(params, super_args|None, body, default)],
+#               meths=[(name, params, ret, body, static, kind)], dtor=body|None)   kind: "" | "virtual" | "override"
+def class_src(c):
+    out = "class %s%s {\n" % (c["name"], " extends " + c["base"] if c.get("base") else "")
+    for (st, fin, t, n, init) in c["fields"]:
+        out += "  public %s%s%s %s%s;\n" % ("static " if st else "", "final " if fin else "", ty_src(t), n,
+                                            " = " + e_src(init) if init is not None else "")
+    for (ps, sup, body, dflt) in c["ctors"]:
+        hdr = "  public constructor(%s) -> %s" % (", ".join("%s %s" % (ty_src(t), n) for t, n in ps), c["name"])
+        if dflt:
+            out += hdr + " = default;\n"
+            continue
+        out += hdr + " {\n"
+        if sup is not None:
+            out += "    super(%s);\n" % ", ".join(e_src(a) for a in sup)
+        out += "".join(s_src(x, 2) for x in body) + "  }\n"
+    for (n, ps, ret, body, st, kind) in c["meths"]:
+        out += "  public %s%sfunction %s(%s) -> %s {\n%s  }\n" % (
+            "static " if st else "", kind + " " if kind else "", n,
+            ", ".join("%s %s" % (ty_src(t), pn) for t, pn in ps), ty_src(ret), "".join(s_src(x, 2) for x in body))
+    if c.get("dtor") is not None:
+        out += "  public destructor() -> void {\n%s  }\n" % "".join(s_src(x, 2) for x in c["dtor"])
+    return out + "}\n"
 
 
-def prog_sx(fns):
-    return "(prog %s)" % " ".join(fn_sx(f) for f in fns)
+def class_sx(c):
+    fs = "".join(" (field %d %d %s %s %s)" % (1 if st else 0, 1 if fin else 0, ty_sx(t), n, opt_sx(e_sx, init))
+                 for (st, fin, t, n, init) in c["fields"])
+    cts = "".join(" (ctor (%s) %s (%s) %d)" % (" ".join("(%s %s)" % (ty_sx(t), n) for t, n in ps),
+                                              "-" if sup is None else "(sup%s)" % "".join(" " + e_sx(a) for a in sup),
+                                              " ".join(s_sx(x) for x in body), 1 if dflt else 0)
+                  for (ps, sup, body, dflt) in c["ctors"])
+    ms = "".join(" (meth %s (%s) %s (%s) %d %d)" % (n, " ".join("(%s %s)" % (ty_sx(t), pn) for t, pn in ps), ty_sx(ret),
+                                                   " ".join(s_sx(x) for x in body), 1 if st else 0, 1 if kind else 0)
+                 for (n, ps, ret, body, st, kind) in c["meths"])
+    dt = "-" if c.get("dtor") is None else "(dtor%s)" % "".join(" " + s_sx(x) for x in c["dtor"])
+    return "(class %s %s (fields%s) (ctors%s) (meths%s) %s)" % (c["name"], c.get("base") or "-", fs, cts, ms, dt)
+
+
+def prog_src(fns, classes=None, order=None):
+    """order: optional permutation of the top-level declarations (classes then functions)"""
+    decls = [class_src(c) for c in (classes or [])] + [fn_src(f) for f in fns]
+    if order is not None:
+        decls = [decls[i] for i in order]
+    return "\n".join(decls)
+
+
+def prog_sx(fns, classes=None):
+    if not classes:
+        return "(prog %s)" % " ".join(fn_sx(f) for f in fns)
+    return "(prog (classes%s) (fns%s))" % ("".join(" " + class_sx(c) for c in classes), "".join(" " + fn_sx(f) for f in fns))
 
 
 # ----------------------------------------------------------------------------- generation
